@@ -158,7 +158,12 @@ func buildTree(spec plan.Tree, docs map[string][]byte) (*treeInst, error) {
 	}
 	doc, err := dom.Parse(bytes.NewReader(b))
 	if err != nil {
-		return nil, fmt.Errorf("tree %s: %v", spec.ID, err)
+		// bytes the charset detector rejects (e.g. empty input): the caller
+		// of Apply would have parsed them some other way; html.Parse never fails
+		doc, err = html.Parse(bytes.NewReader(b))
+		if err != nil {
+			return nil, fmt.Errorf("tree %s: %v", spec.ID, err)
+		}
 	}
 	root := doc
 	switch {
